@@ -146,12 +146,29 @@ func (p *Program) extraDecls(used map[string]bool, allOps map[string]bool) strin
 			}
 		}
 	}
+	// element-read functions
+	var ats []string
+	for op := range allOps {
+		if strings.HasPrefix(op, "at.") {
+			ats = append(ats, op)
+		}
+	}
+	sort.Strings(ats)
+	for _, op := range ats {
+		el := op[3:]
+		fmt.Fprintf(&sb, "(declare-fun %s ((Array Int %s) Int Int) %s)\n", op, el, el)
+		fmt.Fprintf(&sb, "(assert (forall ((A (Array Int %s)) (o Int) (i Int)) (! (= (%s A o i) (select A (+ o i))) :pattern ((%s A o i)))))\n", el, op, op)
+	}
 	// pure function symbols in declaration order
 	for _, name := range TB.funOrd {
 		if !allOps[name] {
 			continue
 		}
 		fd := TB.funs[name]
+		if fd.Def != "" {
+			sb.WriteString(fd.Def)
+			continue
+		}
 		var as []string
 		for _, a := range fd.Args {
 			as = append(as, a.Name)
@@ -440,7 +457,10 @@ func solveFile(o *Obligation, file string, cfg *SolveConfig) {
 		}
 		return false
 	}
-	if !race([]string{"z3", "z3new"}, cfg.t1) || cfg.allAgree {
+	if o.ExpectSat {
+		// vacuity guard: only a definite unsat is a failure; do not spend the long timeout on it
+		race([]string{"z3", "z3new"}, 3)
+	} else if !race([]string{"z3", "z3new"}, cfg.t1) || cfg.allAgree {
 		if cfg.allAgree {
 			race([]string{"cvc5"}, cfg.t2)
 		} else {
